@@ -113,7 +113,21 @@ def gen_history(streams, tier, profile):
     ops.append({"op": "eval", "entry": hrng.choice(gen.entries(cur)), "style": hrng.choice(styles)})
     loads_after()
     loc = cfg.choice(profile.get("locations", ["package"]))
-    return {"prog": prog, "feat": feat, "store": store, "ops": ops, "options": [], "location": loc}
+    case = {"prog": prog, "feat": feat, "store": store, "ops": ops, "options": [], "location": loc}
+    if loc == "notebook":
+        case["nb_single_cell"] = cfg.random() < 0.4
+        # in a notebook an edit is usually followed by re-running the cell of the edited function, not by a restart
+        out = []
+        for k, op in enumerate(ops):
+            out.append(op)
+            if op["op"] == "edit" and op["edit"].get("f") and op["edit"]["kind"] in ("ver", "comment", "lit", "respell") \
+                    and cfg.random() < 0.6:
+                if k + 1 < len(ops) and ops[k + 1]["op"] == "restart":
+                    ops[k + 1] = {"op": "redefine", "f": op["edit"]["f"]}
+                else:
+                    out.append({"op": "redefine", "f": op["edit"]["f"]})
+        case["ops"] = out
+    return case
 
 
 def final_prog(case):
